@@ -15,7 +15,8 @@ C03, C05, C25 that are cherry-picked there), the three stages a grammar text goe
   `_update_attr_multiplicities`, `visit_import_stm`, `visit_reference_stm`,
   `visit_textx_model`): functions `visit*`, `visitRule`, `firstPass`.
 * stage 2  `second_textx_model`: `_resolve_rule_refs` (`resolveCross`,
-  `resolvePeg`, `stage2`), `_determine_rule_types` (the attribute accesses it
+  `resolvePeg`, `stage2`), the refresh of the comments model (`refreshComments`; the first
+  read is `visit_textx_model`, `commentsModel`), `_determine_rule_types` (the attribute accesses it
   performs: `stage3`), `_resolve_cls_refs` (`stage4`), with
   `TextXMetaModel.__getitem__` / `__contains__` (`getitem`, `contains`).
 
